@@ -12,6 +12,7 @@
   `skipUntilPos`, `optMatch*`, `matchAll`, `pos == inp.size`); the only node that is not is
   `.soiB` (`pos == 0`), which the hypothesis `soiFree` excludes.
 -/
+import PestModel.Hyps
 import PestModel.Gen
 
 namespace Pest
@@ -236,50 +237,8 @@ end
 
 /-! ### SOI-free expressions and grammars -/
 
-mutual
-/-- no `_SOI` body anywhere in the tree (the front end embeds `SOI` as `.rule "SOI" 2 true .soiB`) -/
-def soiFree : Expr → Bool
-  | .str _ => true
-  | .ci _ => true
-  | .range _ _ => true
-  | .ident _ _ => true
-  | .rule _ _ _ b => soiFree b
-  | .seq es => soiFreeL es
-  | .choice es => soiFreeL es
-  | .opt e => soiFree e
-  | .rep e => soiFree e
-  | .rep1 e => soiFree e
-  | .repExact e _ => soiFree e
-  | .repMin e _ => soiFree e
-  | .repMax e _ => soiFree e
-  | .repMinMax e _ _ => soiFree e
-  | .andP e => soiFree e
-  | .notP e => soiFree e
-  | .group e _ => soiFree e
-  | .push e => soiFree e
-  | .pushLit _ => true
-  | .peek => true
-  | .pop => true
-  | .drop => true
-  | .peekAll => true
-  | .popAll => true
-  | .peekSlice _ _ => true
-  | .anyB => true
-  | .soiB => false
-  | .eoiB => true
-  | .uprop _ => true
-  | .skipUntil _ => true
-  | .optChoice _ _ => true
-def soiFreeL : List Expr → Bool
-  | [] => true
-  | e :: es => soiFree e && soiFreeL es
-end
-
 /-- the grammar does not use SOI: no rule body contains it -/
 def SOIFree (g : Grammar) : Prop := ∀ r ∈ g.rules, soiFree r.body = true
-
-/-- Bool version, for `decide` -/
-def soiFreeG (g : Grammar) : Bool := g.rules.all fun r => soiFree r.body
 
 theorem soiFreeG_iff (g : Grammar) : soiFreeG g = true ↔ SOIFree g := by
   simp [soiFreeG, SOIFree]
